@@ -868,6 +868,9 @@ def run(ctx):
     finally:
         drv.close()
     run_active(ctx)
+    # an emit to a group while the transport write to one member fails (asyncio scheduler kernel, oracle only)
+    from .. import sched_async
+    sched_async.run_emit_failure_schedules(ctx)
     ctx.coverage.update({
         'evaluations': evals, 'distinct_nontrivial': len(nontrivial),
         'rule': 'one evaluation = one generated history (5-60 operations over 1-6 transports and 1-3 served '
@@ -896,6 +899,9 @@ def replay(ctx, r):
     r = r.get('replay', r)
     if r.get('kernel') == 'active_handlers':
         return replay_active(ctx, r)
+    if r.get('kernel') == 'sched_emit_failure':
+        from .. import sched_async
+        return sched_async.replay_emit_failure(ctx, r)
     served, ops = r['served'], r['ops']
     families = [r['family']] if r.get('family') else ['threading', 'asyncio']
     drv = C.Driver('rooms')
